@@ -225,7 +225,8 @@ def c_rec(lv, t, rid):
 # ---------------------------------------------------------------- signatures
 
 class Sig:
-    def __init__(self, ret, params, n_named=None, variadic=False, depth=0):
+    def __init__(self, ret, params, n_named=None, variadic=False, depth=0, unproto=False):
+        self.unproto = unproto
         self.ret = ret
         self.params = list(params)
         self.variadic = variadic
@@ -241,13 +242,13 @@ class Sig:
         ps = [p.short() for p in self.params]
         if self.variadic:
             ps = ps[:self.n_named] + ['...'] + ps[self.n_named:]
-        return f"{self.ret.short() if self.ret else 'void'} f({', '.join(ps) or 'void'})" + (f' @depth{self.depth}' if self.depth else '')
+        return f"{self.ret.short() if self.ret else 'void'} f({', '.join(ps) or 'void'})" + (f' @depth{self.depth}' if self.depth else '') + (' @unprototyped-call' if self.unproto else '')
 
     def key(self):
         return self.short()
 
     def with_params(self, params, n_named):
-        return Sig(self.ret, params, n_named, self.variadic, self.depth)
+        return Sig(self.ret, params, n_named, self.variadic, self.depth, self.unproto)
 
 
 def agg_types_of(t, acc):
@@ -398,19 +399,27 @@ void sink2(int a, int b, int c) { printf("S 2 %d %d %d\n", a, b, c); }
 
 
 def emit_files(sigs, first_k=0):
-    """returns dict name -> text: types.h, callee.c, caller.c, main.c (main.c and util are compiled by gcc)"""
+    """returns dict name -> text: types.h, callee.c, caller.c, main.c (main.c is always compiled by gcc)"""
     defs, chk = c_typedefs(sigs)
     hdr = ['#include <stdarg.h>'] + defs + [COMMON, 'void begin(int k);', 'void lay(int who, int idx, unsigned long got, unsigned long want);',
            'void sink1(int, int); void sink2(int, int, int);']
     for i, s in enumerate(sigs):
-        hdr.append(proto(s, f'f{first_k + i}') + ';')
         hdr.append(f'void call{first_k + i}(void);')
     # every compiler confirms the layout the generator computed (C08 is a different property: a disagreement is
     # reported as LAYOUT and the case is dropped, not counted as a calling-convention failure)
     def layfn(name, who):
         return (f'void {name}(void) {{\n' + '\n'.join(f'  lay({who}, {i}, {e}, {v});' for i, (e, v) in enumerate(chk)) + '\n}')
-    callee = ['#include "types.h"', layfn('layout_callee', 1)] + [c_callee(s, first_k + i) for i, s in enumerate(sigs)]
-    caller = ['#include "types.h"', layfn('layout_caller', 0)] + [c_caller(s, first_k + i) for i, s in enumerate(sigs)]
+    def protos(for_caller):
+        out = []
+        for i, s in enumerate(sigs):
+            if for_caller and getattr(s, 'unproto', False):
+                r = s.ret.cdecl('') if s.ret else 'void '
+                out.append(f'{r.strip()} f{first_k + i}();')        # no prototype: default argument promotions
+            else:
+                out.append(proto(s, f'f{first_k + i}') + ';')
+        return out
+    callee = ['#include "types.h"'] + protos(False) + [layfn('layout_callee', 1)] + [c_callee(s, first_k + i) for i, s in enumerate(sigs)]
+    caller = ['#include "types.h"'] + protos(True) + [layfn('layout_caller', 0)] + [c_caller(s, first_k + i) for i, s in enumerate(sigs)]
     main = [UTIL_C] + [f'void call{first_k + i}(void);' for i in range(len(sigs))]
     main.append('void layout_caller(void); void layout_callee(void);')
     main.append('int main(void) {')
@@ -420,6 +429,102 @@ def emit_files(sigs, first_k=0):
     main.append('  printf("END\\n"); return 0; }')
     return {'types.h': '\n'.join(hdr) + '\n', 'callee.c': '\n\n'.join(callee) + '\n',
             'caller.c': '\n\n'.join(caller) + '\n', 'main.c': '\n'.join(main) + '\n'}
+
+
+DUMP_MAIN = r'''
+#include <stdio.h>
+struct Dump { unsigned long k, gp[6], xmm[8], al, rsp; unsigned char stack[256]; } dump;
+void begin(int k) {}
+void rec(int id, unsigned long v) {}
+void lay(int who, int idx, unsigned long got, unsigned long want) { if (got != want) printf("LAYOUT %d %d %lu %lu\n", who, idx, got, want); }
+void sink1(int a, int b) {}
+void sink2(int a, int b, int c) {}
+void layout_caller(void);
+static void dump_print(void) {
+  printf("D %lu", dump.k >> 1);
+  for (int i = 0; i < 6; i++) printf(" %lx", dump.gp[i]);
+  for (int i = 0; i < 8; i++) printf(" %lx", dump.xmm[i]);
+  printf(" %lx %lx ", dump.al & 0xff, dump.rsp & 15);
+  for (int i = 0; i < 256; i++) printf("%02x", dump.stack[i]);
+  printf("\n");
+}
+'''
+
+DUMP_ASM = r'''
+  .text
+dumpregs:
+  mov %r11, dump(%rip)
+  mov %rdi, dump+8(%rip)
+  mov %rsi, dump+16(%rip)
+  mov %rdx, dump+24(%rip)
+  mov %rcx, dump+32(%rip)
+  mov %r8, dump+40(%rip)
+  mov %r9, dump+48(%rip)
+  movq %xmm0, dump+56(%rip)
+  movq %xmm1, dump+64(%rip)
+  movq %xmm2, dump+72(%rip)
+  movq %xmm3, dump+80(%rip)
+  movq %xmm4, dump+88(%rip)
+  movq %xmm5, dump+96(%rip)
+  movq %xmm6, dump+104(%rip)
+  movq %xmm7, dump+112(%rip)
+  mov %rax, dump+120(%rip)
+  mov %rsp, dump+128(%rip)
+  lea 8(%rsp), %rsi
+  lea dump+136(%rip), %rdi
+  mov $256, %ecx
+  rep movsb
+  mov dump+8(%rip), %rax
+  testb $1, dump(%rip)
+  jz 1f
+  fldz
+1:
+  ret
+'''
+
+
+def emit_dump_files(sigs, first_k=0):
+    """caller.c as in emit_files; the callees are assembly stubs that record every argument register, al, rsp and
+    256 bytes of stack (dump.s), printed by main.c after each call"""
+    fs = emit_files(sigs, first_k)
+    stubs = []
+    for i, s in enumerate(sigs):
+        k = first_k + i
+        isld = 1 if (s.ret is not None and s.ret.k == 'ldbl') else 0
+        stubs.append(f'  .globl f{k}\nf{k}:\n  mov ${k * 2 + isld}, %r11d\n  jmp dumpregs\n')
+    main = [DUMP_MAIN] + [f'void call{first_k + i}(void);' for i in range(len(sigs))]
+    main.append('int main(void) {')
+    main.append('  layout_caller();')
+    for i in range(len(sigs)):
+        main.append(f'  call{first_k + i}(); dump_print(); fflush(stdout);')
+    main.append('  printf("END\\n"); return 0; }')
+    return {'types.h': fs['types.h'], 'caller.c': fs['caller.c'], 'main.c': '\n'.join(main) + '\n',
+            'dump.s': DUMP_ASM + '\n'.join(stubs) + '\n  .section .note.GNU-stack,"",@progbits\n'}
+
+
+def emit_tie_files(sigs, first_k=0):
+    """sources for the asm-text tie: tie_caller.c (one function per signature that only makes the call, arguments are
+    global variables) and tie_callee.c (takes the address of every parameter, returns a global)"""
+    defs, _ = c_typedefs(sigs)
+    caller = list(defs) + ['extern int h0, h1, h2;', 'void sink1(int, int); void sink2(int, int, int);']
+    callee = list(defs) + ['extern void *sink;']
+    for i, s in enumerate(sigs):
+        k = first_k + i
+        caller.append(proto(s, f'f{k}') + ';')
+        for j, p in enumerate(s.params):
+            caller.append('extern ' + p.cdecl(f'g{k}_{j}') + ';')
+        call = f"f{k}({', '.join(f'g{k}_{j}' for j in range(len(s.params)))})"
+        if s.depth == 0:
+            caller.append(f'void caller{k}(void) {{ {call}; }}')
+        else:
+            extra = ', '.join(f'h{j + 1}' for j in range(s.depth))
+            caller.append(f'void caller{k}(void) {{ sink{s.depth}((({call}), h0), {extra}); }}')
+        body = [f'sink = &p{j};' for j in range(s.n_named)]
+        if s.ret is not None:
+            callee.append('extern ' + s.ret.cdecl(f'gret{k}') + ';')
+            body.append(f'return gret{k};')
+        callee.append(proto(s, f'f{k}') + ' { ' + ' '.join(body) + ' }')
+    return {'tie_caller.c': '\n'.join(caller) + '\n', 'tie_callee.c': '\n'.join(callee) + '\n'}
 
 
 # ---------------------------------------------------------------- random generation
